@@ -14,12 +14,21 @@ shape (str, bytes, list, unsized iterable, streamed generator, file object, http
                      exact body of every response from the connection's bytes, find nothing left
                      over, and the close event must occur iff the last response announced it;
                      (2) the same with Python's http.client.HTTPResponse as the reader.
+ E  end to end     : (spec on impl only, no model) a real circuits.web.Server with Controllers on a
+                     loopback socket in a background thread, SO_SNDBUF 64 KiB so that send() is partial;
+                     http.client.HTTPConnection sends GET/HEAD, HTTP/1.1 keep-alive sequences and
+                     HTTP/1.0 / Connection: close requests for bodies of 0 B .. 2 MiB (8 MiB thorough) and
+                     must recover status, X-Case header and body (length + sha256 of what the controller
+                     produced); the connection must be closed iff the response announced it.
 """
+import hashlib
 import http.client
 import io
 import itertools
+import socket
+import time
 
-from framework import hx
+from framework import Infra, hx
 
 FIXED_DATE = 'Thu, 01 Jan 2026 00:00:00 GMT'
 BODYLESS = (204, 304)
@@ -537,6 +546,306 @@ def sequence_cases(ctx):
     return cases
 
 
+# ---------------------------------------------------------------------------------------
+# end-to-end group: real circuits.web.Server on a loopback socket, http.client as the client
+# ---------------------------------------------------------------------------------------
+# case = {'kind': 'e2e', 'sndbuf': 65536,
+#         'reqs': [{'method', 'ver', 'conn', 'body': <kind>, 'size', 'piece', 'status'}, ...]}
+# All requests of a case go over one TCP connection, as long as the server keeps it open.  If the last
+# response does not announce a close, a tiny probe request (Connection: close) is sent after it.
+
+KIB, MIB = 1 << 10, 1 << 20
+E2E_SNDBUF = 65536
+E2E_TIMEOUT = 20
+E2E_KINDS = ['bytes', 'str', 'list', 'gen', 'sgen', 'file']
+E2E_SIZES = [0, 1, 70 * KIB, 2 * MIB]
+E2E_BIG = 8 * MIB
+E2E_MAX_FAILURES = 8          # a broken transport fails everywhere, possibly by timeout: do not go on for long
+E2E_MAX_FAILING_S = 45
+E2E_PROBE = {'method': 'GET', 'ver': '1.1', 'conn': 'close', 'body': 'bytes', 'size': 1, 'piece': 0,
+             'status': 200}
+E2E_GONE = (http.client.RemoteDisconnected, ConnectionResetError, BrokenPipeError, ConnectionAbortedError)
+_E2E_TAG = itertools.count()
+
+
+def e2e_size_class(n):
+    return {0: '0', 1: '1', 70 * KIB: '70KiB', 2 * MIB: '2MiB', 8 * MIB: '8MiB'}.get(n, f'{n}B')
+
+
+def e2e_req(method, ver, conn, kind, size, piece=0, status=200):
+    return {'method': method, 'ver': ver, 'conn': conn, 'body': kind, 'size': size, 'piece': piece,
+            'status': status}
+
+
+def e2e_bodyless(rq):
+    return rq['method'] == 'HEAD' or rq['status'] < 200 or rq['status'] in BODYLESS
+
+
+def e2e_after_close(peek):
+    """after a response that announced `close`: None if the server closed the connection (EOF / reset,
+       and a further request gets no answer), else what was seen instead"""
+    try:
+        d = peek.recv(64)
+    except E2E_GONE:
+        return None
+    except (TimeoutError, socket.timeout):
+        return f'the response announced a close, but the connection was still open {E2E_TIMEOUT} s later'
+    except OSError as e:
+        return f'{type(e).__name__} while waiting for the announced close'
+    if d:
+        return f'bytes after the response that announced a close: {d[:24]!r}'
+    try:
+        peek.sendall(b'GET /kbytes/1/0/200/after-close HTTP/1.1\r\nHost: x\r\n\r\n')
+        d = peek.recv(64)
+    except OSError:
+        return None
+    return f'a request sent after the announced close was answered: {d[:24]!r}' if d else None
+
+
+def e2e_exchange(srv, case):
+    """the requests of `case` over one real connection -> (failure | None, [observation per response])
+       failure = {'clause', 'idx', 'arg', 'detail'}"""
+    reqs = list(case['reqs'])
+    n = len(reqs)
+    obs = []
+
+    def fail(clause, idx, detail, arg=None):
+        return {'clause': clause, 'idx': idx, 'arg': arg, 'detail': detail}, obs
+
+    try:
+        conn = http.client.HTTPConnection(srv.host, srv.port, timeout=E2E_TIMEOUT)
+        conn.connect()
+    except OSError as e:
+        return fail('undecodable', 0, f'connect: {e!r}', type(e).__name__)
+    peek = None
+    try:
+        peek = conn.sock.dup()       # a second handle: the client's own close() sends no FIN while it is open
+        peek.settimeout(E2E_TIMEOUT)
+        i = 0
+        while i < len(reqs):
+            rq = reqs[i]
+            probe = i >= n
+            tag = f'e{next(_E2E_TAG)}'
+            path = f"/k{rq['body']}/{rq['size']}/{rq['piece']}/{rq['status']}/{tag}"
+            desc = f"{'probe ' if probe else ''}{rq['method']} {rq['body']}[{e2e_size_class(rq['size'])}] HTTP/{rq['ver']}"
+            began = False
+            try:
+                conn._http_vsn, conn._http_vsn_str = (11, 'HTTP/1.1') if rq['ver'] == '1.1' else (10, 'HTTP/1.0')
+                conn.putrequest(rq['method'], path, skip_accept_encoding=True)
+                if rq.get('conn'):
+                    conn.putheader('Connection', rq['conn'])
+                conn.endheaders()
+                resp = conn.getresponse()
+                began = True
+                will_close = resp.will_close
+                chunked = bool(resp.chunked)
+                clen = resp.getheader('Content-Length')
+                xcase = resp.getheader('X-Case')
+                status = resp.status
+                h = hashlib.sha256()
+                got = 0
+                while True:
+                    d = resp.read(1 << 18)
+                    if not d:
+                        break
+                    got += len(d)
+                    h.update(d)
+            except (http.client.HTTPException, OSError, ValueError) as e:
+                if i > 0 and not began and isinstance(e, E2E_GONE):
+                    return fail('close-mismatch', i,
+                                f'response {i - 1} announced no close, but the connection was gone for the next '
+                                f'request ({desc}: {e!r})')
+                return fail('undecodable', i, f'{desc}: {e!r}'[:300], type(e).__name__)
+            obs.append({'rq': rq, 'probe': probe, 'will_close': will_close,
+                        'delimiter': 'none(bodyless)' if e2e_bodyless(rq) else 'chunked' if chunked else
+                        'content-length' if clen is not None else 'close'})
+            if status != rq['status']:
+                return fail('status-mismatch', i, f'{desc}: status {status}, expected {rq["status"]}')
+            if xcase != tag:
+                return fail('header-lost', i, f'{desc}: X-Case {xcase!r}, expected {tag!r}')
+            produced = srv.produced.pop(tag, None)
+            if produced is None:
+                return fail('body-mismatch', i, f'{desc}: the controller was not reached')
+            want = (0, hashlib.sha256(b'').hexdigest()) if e2e_bodyless(rq) else produced
+            if (got, h.hexdigest()) != want:
+                return fail('body-mismatch', i,
+                            f'{desc}: client read {got} bytes sha256 {h.hexdigest()[:16]}, '
+                            f'controller produced {want[0]} bytes sha256 {want[1][:16]}')
+            if will_close:
+                bad = e2e_after_close(peek)
+                if bad:
+                    return fail('close-mismatch', i, f'{desc}: {bad}')
+                break
+            i += 1
+            if i == len(reqs) and not probe:
+                reqs.append(E2E_PROBE)       # kept alive: a further request must be answered correctly
+        return None, obs
+    finally:
+        conn.close()
+        if peek is not None:
+            peek.close()
+
+
+def e2e_signature(case, failure):
+    rq = case['reqs'][min(failure['idx'], len(case['reqs']) - 1)]
+    c = failure['clause']
+    if c == 'body-mismatch':
+        return f"e2e-body-mismatch({rq['body']},{e2e_size_class(rq['size'])})"
+    if c == 'undecodable':
+        return f"e2e-undecodable({failure['arg']})"
+    return 'e2e-' + c
+
+
+class _E2ERig:
+    """one server for consecutive cases; replaced after a failure or when the send buffer changes"""
+
+    def __init__(self, ctx):
+        self.ctx = ctx
+        self.srv = None
+        self.sndbuf = None
+
+    def get(self, sndbuf):
+        from http15util import E2EServer
+        if self.srv is not None and self.sndbuf != sndbuf:
+            self.drop()
+        if self.srv is None:
+            try:
+                self.srv = E2EServer(sndbuf, E2E_TIMEOUT)
+            except (OSError, RuntimeError) as e:
+                raise Infra(f'C15 e2e: cannot start the server: {e!r}')
+            self.sndbuf = sndbuf
+            self.ctx.count('e2e_servers_started', f'127.0.0.1:port-0 SO_SNDBUF={sndbuf}')
+        return self.srv
+
+    def drop(self):
+        srv, self.srv = self.srv, None
+        if srv is not None and not srv.stop(E2E_TIMEOUT):
+            self.ctx.count('e2e_server_thread_not_joined', 'x')
+
+
+def e2e_evaluate(ctx, cases, shrink=True):
+    rig = _E2ERig(ctx)
+    failures = 0
+    failing_s = 0.0
+    try:
+        for c in cases:
+            srv = rig.get(c.get('sndbuf', E2E_SNDBUF))
+            t0 = time.time()
+            failure, obs = e2e_exchange(srv, c)
+            server_errors = list(srv.errors)
+            del srv.errors[:]
+            srv.produced.clear()
+            if failure is None and server_errors:
+                failure = {'clause': 'server-exception', 'idx': len(obs) - 1, 'arg': None,
+                           'detail': server_errors[0][:200]}
+            for ob in obs:
+                rq = ob['rq']
+                if ob['probe']:
+                    ctx.count('e2e_probe_after_kept_alive', 'answered')
+                    continue
+                ctx.count('e2e_method', rq['method'])
+                ctx.count('e2e_version', rq['ver'])
+                ctx.count('e2e_connection_header', rq.get('conn') or 'absent')
+                ctx.count('e2e_body_kind', rq['body'])
+                ctx.count('e2e_body_size', e2e_size_class(rq['size']))
+                ctx.count('e2e_status', rq['status'])
+                ctx.count('e2e_delimiter', ob['delimiter'])
+                ctx.count('e2e_connection_after', 'close-announced-and-seen' if ob['will_close'] else 'kept-alive')
+            ctx.count('e2e_requests_per_connection', sum(1 for ob in obs if not ob['probe']))
+            if failure is not None:
+                failures += 1
+                rig.drop()               # whatever state that server is in: the next case gets a new one
+                fc, ff = c, failure
+                sig = e2e_signature(c, failure)
+                if shrink and len(c['reqs']) > 1 and ('e2e', sig) not in SHRUNK:
+                    SHRUNK[('e2e', sig)] = True
+                    k = min(failure['idx'], len(c['reqs']) - 1)
+                    for rs in ([c['reqs'][k]], c['reqs'][max(0, k - 1):k + 1]):
+                        if len(rs) >= len(c['reqs']):
+                            continue
+                        cand = dict(c, reqs=rs)
+                        f2, _o = e2e_exchange(rig.get(cand.get('sndbuf', E2E_SNDBUF)), cand)
+                        rig.drop()
+                        if f2 is not None and e2e_signature(cand, f2) == sig:
+                            fc, ff = cand, f2
+                            break
+                ctx.violate(fc, e2e_signature(fc, ff),
+                            f"end to end (real sockets, http.client): response {ff['idx']} on the connection: "
+                            f"{ff['detail']}; requests: "
+                            + '; '.join(f"{r['method']} HTTP/{r['ver']} conn={r.get('conn')} status={r['status']} "
+                                        f"body={r['body']}[{r['size']} B, pieces of {r['piece'] or 'all'}]"
+                                        for r in fc['reqs']))
+                failing_s += time.time() - t0
+            ctx.case(c, nontrivial=True, validated=failure is None)
+            if failures >= E2E_MAX_FAILURES or failing_s > E2E_MAX_FAILING_S:
+                ctx.count('e2e_stopped_after_failures', failures)
+                break
+            if ctx.time_up():
+                break
+    finally:
+        rig.drop()
+
+
+def e2e_case_list(ctx):
+    rng = ctx.rng
+    big = ctx.tier == 'thorough' or ctx.searching
+    sizes = E2E_SIZES + ([E2E_BIG] if big else [])
+    small_sizes = [0, 1, 70 * KIB]
+    pieces = [4096, 4097, 65537, 0]            # 0 = the whole body in one piece
+
+    def small():
+        return e2e_req(rng.choice(['GET', 'GET', 'HEAD']), '1.1', rng.choice([None, None, 'keep-alive']),
+                       rng.choice(E2E_KINDS), rng.choice(small_sizes), rng.choice(pieces),
+                       rng.choice([200, 200, 200, 200, 201, 404, 204, 304]))
+
+    def case(reqs):
+        return {'kind': 'e2e', 'sndbuf': E2E_SNDBUF, 'reqs': reqs}
+
+    cases = []
+    closing = [('1.0', None), ('1.1', 'close'), ('1.0', 'keep-alive')]
+    for si, size in enumerate(sizes):
+        for ki, kind in enumerate(E2E_KINDS):
+            # (a) HTTP/1.1 keep-alive: the body under test first, 1-2 further requests behind it
+            piece = 512 * KIB if size >= MIB else rng.choice(pieces)
+            reqs = [e2e_req('GET', '1.1', rng.choice([None, 'keep-alive']), kind, size, piece), small()]
+            if rng.random() < 0.5:
+                reqs.append(e2e_req('HEAD', '1.1', None, kind, size, piece) if rng.random() < 0.5 else small())
+            cases.append(case(reqs))
+            # (b) a GET that implies / asks for a close, or HTTP/1.0 keep-alive (every kind meets all three)
+            ver, conn = closing[(si + ki) % 3]
+            piece = rng.choice([512 * KIB, 65537, 0]) if size >= MIB else rng.choice(pieces)
+            cases.append(case([e2e_req('GET', ver, conn, kind, size, piece)]))
+            # (c) HEAD for the same, with another of the three
+            if size > 1:
+                ver, conn = closing[(si + ki + 1) % 3]
+                cases.append(case([e2e_req('HEAD', ver, conn, kind, size, piece)]))
+    # (d) random connections
+    for _ in range(16 * ctx.scale):
+        reqs = []
+        nreq = rng.randint(2, 3)
+        for k in range(nreq):
+            last = k == nreq - 1
+            rq = small()
+            if rng.random() < 0.25:
+                rq.update(size=rng.choice(sizes), status=200)
+                if rq['size'] >= MIB:
+                    rq['piece'] = rng.choice([512 * KIB, 65537, 0])
+            if rng.random() < 0.3:      # only the last request asks for a close (unsized HTTP/1.0 bodies close anyway)
+                rq.update(ver='1.0', conn=rng.choice(['keep-alive', 'keep-alive', None]) if last else 'keep-alive')
+            elif last and rng.random() < 0.3:
+                rq['conn'] = 'close'
+            reqs.append(rq)
+        cases.append(case(reqs))
+    return cases
+
+
+def e2e_cases(ctx):
+    """the end-to-end group (C, spec on impl only - there is no model of the transport to compare with)"""
+    t0 = time.time()
+    e2e_evaluate(ctx, e2e_case_list(ctx))
+    ctx.extra['e2e_wall_s'] = round(ctx.extra.get('e2e_wall_s', 0) + time.time() - t0, 2)
+
+
 def run(ctx):
     impl = Impl()
     ctx.param('SERVER_PROTOCOL == (1, 1)  (model: res.protocol = min(request version, 1.1))',
@@ -548,23 +857,41 @@ def run(ctx):
                 'empty) x 10 statuses, each followed by a second request on the same connection (exhaustive over '
                 'that table); body sizes around 16/256/BUFSIZE/2*BUFSIZE and 70 KiB per kind and version; random '
                 'sequences of 2-4 requests per connection; non-trivial = every case (each is a full exchange); '
-                'distinct = distinct case')
+                'distinct = distinct case; END-TO-END group (spec on impl only, no model comparison): a real '
+                'circuits.web.Server + Controller on 127.0.0.1:0 in a thread, SO_SNDBUF 64 KiB, driven by '
+                'http.client.HTTPConnection over loopback: 6 body kinds (bytes, str, list, generator, streamed '
+                'generator, file object) x sizes {0, 1, 70 KiB, 2 MiB (+ 8 MiB thorough)}, each once first on an '
+                'HTTP/1.1 keep-alive connection of 2-3 requests and once as HTTP/1.0 / Connection: close / '
+                'HTTP/1.0 keep-alive request (GET and HEAD), plus random connections; oracle: status, X-Case '
+                'header, body length + sha256 as produced by the controller, connection closed iff announced, '
+                'kept-alive connection answers a further request')
     ctx.exhaustive = False
     ctx.trusted += ['http.client.HTTPResponse as second, independent reader',
                     'request line / Connection header -> (HEAD?, version, keep-alive) is computed by the harness '
                     '(parser.should_keep_alive is C13 territory) and cross-checked by the correspondence',
                     'str parts are utf-8 encoded by the harness (Response.encoding = utf-8)',
-                    'wrappers.formatdate is replaced by a constant (Date header masked)']
+                    'wrappers.formatdate is replaced by a constant (Date header masked)',
+                    'e2e group: http.client.HTTPConnection/HTTPResponse as the independent client (HTTP/1.0 request '
+                    'lines via its _http_vsn attributes), the loopback TCP stack of the kernel, a dup()ed socket '
+                    'handle to observe the server side close']
     ctx.assumptions += ['the application does not set Content-Length / Transfer-Encoding / Connection itself',
                         'response.stream = True only together with an iterator body (as Body.__set__ and '
                         'wsgi.Gateway do); request cookies absent; generator handlers (coroutines) are C04/C06',
-                        'the body iterator does not raise']
-    groups = [ctx.corpus(), product_cases(), size_cases(ctx), sequence_cases(ctx)]
+                        'the body iterator does not raise',
+                        'e2e group: spec on impl only (not compared with the Lean model; the transport below the '
+                        '`write` events is C11 territory, here only its HTTP-level consequence is observed); one '
+                        'client connection at a time; the client reads promptly; plain TCP (no TLS); SO_SNDBUF '
+                        '64 KiB set through the public socket_options keyword so that send() accepts only part of '
+                        'a large piece']
+    corpus = ctx.corpus()
+    groups = [[c for c in corpus if c.get('kind') != 'e2e'], product_cases(), size_cases(ctx), sequence_cases(ctx)]
+    e2e_evaluate(ctx, [c for c in corpus if c.get('kind') == 'e2e'])
     for cases in groups:
         for i in range(0, len(cases), 200):
             evaluate(ctx, impl, cases[i:i + 200])
             if ctx.time_up():
                 return
+    e2e_cases(ctx)
 
 
 def search(ctx):
@@ -572,4 +899,7 @@ def search(ctx):
 
 
 def replay(ctx, case):
-    evaluate(ctx, Impl(), [case], shrink=False)
+    if case.get('kind') == 'e2e':
+        e2e_evaluate(ctx, [case], shrink=False)
+    else:
+        evaluate(ctx, Impl(), [case], shrink=False)
